@@ -82,3 +82,23 @@ instances! {
     c12_k1_remove_any => kind_table(15);
     c12_k1_other => kind_table(16);
 }
+
+// ---- id_of_path on real std::path parsing (thorough tier only: CBMC needs many minutes per call) ---------------------
+fn is_dir_false(_p: &std::path::Path) -> bool {
+    false
+}
+/// two consecutive calls sharing one IdBuilder (as the event handler does): an entry that is not expressible as an id
+/// (a '.' in its stem) produces no event and must not leak segments into the next id
+#[kani::proof]
+#[kani::unwind(12)]
+#[kani::stub(std::path::Path::is_dir, is_dir_false)]
+pub(crate) fn c12_k4_id_of_path_carry_over() {
+    let mut ib = IdBuilder::default();
+    let root = std::path::Path::new("/r");
+    let first = id_of_path(&mut ib, root, std::path::Path::new("/r/d/a.b.x"));
+    assert!(first.is_none(), "C12 a path not expressible as an id produces no event");
+    match id_of_path(&mut ib, root, std::path::Path::new("/r/d/c.x")) {
+        Some(OwnedDirEntry::File(id, ext)) => assert!(&*id == "d.c" && &*ext == "x", "C12 an event names exactly the entry whose path_of is that path (same id, same extension), whatever was processed before"),
+        _ => assert!(false, "C12 a valid file under the root produces a file event"),
+    }
+}
